@@ -2,7 +2,7 @@
     C01, C02, C06, C10, C11 (the statements are repeated there verbatim and closed by [exact]) *)
 From Coq Require Import NArith ZArith List Bool Lia String Ascii.
 From SasLexer Require Import Gen.TokenType Gen.ErrorKind Gen.Channel Model.Base Model.Helpers Model.Numeric Model.Core Model.Buffer
-     Model.Lexer3 Spec.RefLex Proofs.Generic Proofs.LexGeneric Proofs.Sorted Proofs.LexSorted Proofs.RefLexProofs Proofs.RefLexErrors Proofs.RefLexTiling Proofs.RefLexShape Proofs.RefLexCase Proofs.Tables Proofs.CaseInv
+     Model.Lexer3 Spec.RefLex Proofs.Generic Proofs.LexGeneric Proofs.Sorted Proofs.LexSorted Proofs.RefLexProofs Proofs.RefLexErrors Proofs.RefLexTiling Proofs.RefLexShape Proofs.RefLexRanges Proofs.RefLexCase Proofs.Tables Proofs.CaseInv
      Proofs.OcBase Proofs.OcWhole Proofs.OcAll.
 Import ListNotations.
 Open Scope N_scope.
@@ -226,4 +226,22 @@ Proof.
   induction Hn as [|u us Hu _ IH]; intros [|t ts] E0; cbn [map] in E0; try discriminate; constructor.
   - injection E0 as Et _ _ _ _. rewrite Et. exact Hu.
   - injection E0 as _ _ _ _ E2. apply IH. exact E2.
+Qed.
+
+(** C07: [C07_macro_free_ranges] *)
+Definition tranges (ts : list tok) : list (N * N) := flat_map (fun t => prange (t_payload t)) ts.
+
+Lemma mf_C07_macro_free_ranges : forall (msep : bool) (src : list char),
+  macro_free (body_of src) = true ->
+  let r := lex (mkCfg false msep) src in
+  contig 0 (tranges (b_toks (lr_buffer r))) (len (b_lit (lr_buffer r))).
+Proof.
+  intros msep src H. pose proof (lex_is_reflex_macro_free msep src H) as G. cbv zeta in G |- *.
+  pose proof (reflex_ranges src) as Hr.
+  destruct (reflex src) as [[T E] lit]. destruct G as (_ & _ & G3 & _ & G5 & _). rewrite G5.
+  assert (K : tranges (b_toks (lr_buffer (lex (mkCfg false msep) src))) = ranges T).
+  { revert G3. generalize (b_toks (lr_buffer (lex (mkCfg false msep) src))) as toks. clear.
+    induction T as [|u us IH]; intros [|t ts] E0; cbn [map] in E0; try discriminate; [reflexivity|].
+    injection E0 as _ _ _ Ep E2. unfold tranges, ranges. cbn [flat_map]. rewrite Ep. f_equal. apply IH. exact E2. }
+  rewrite K. exact Hr.
 Qed.
